@@ -22,7 +22,7 @@ LEVEL = 'exploration'
 RULE = ('each run = one generated tree + Manifest layout (nesting, several Manifests per directory, '
         '5 compression formats, all file-entry tags, duplicate entries, IGNOREs incl. look-alike '
         'prefixes, hostile names, symlinks) + 0-4 storage corruptions + a keyed permutation of every '
-        'directory listing + 1-3 verify operations (library strict handler and CLI, sub-paths, '
+        'directory listing, of the worker pool\'s completion order and (half of the runs) short raw reads + 1-3 verify operations (library strict handler and CLI, sub-paths, '
         'last_mtime values); non-trivial = at least one corruption was applied or a last_mtime was '
         'given or a sub-path verified, and the model verdict was not a don\'t-care zone; distinct = '
         'distinct seam event-log digest')
@@ -57,6 +57,7 @@ def generate(rng, tier, idx, keep_going=False):
                 m.pop('keep_mtime', None)
                 m['mt'] = int((rng.choice(lms) + rng.choice([0.000001, 0.3, 0.3, 0.45, 1.0])) * 1e9)
     return {'prop': ID, 'order_key': '%016x' % rng.getrandbits(64), 'top': top,
+            'chunks': rng.choice([None, None, None, 'mixed', 'tiny', 4096]),      # raw reads may legally come back short
             'tree': g['tree'], 'manifests': g['manifests'], 'muts': muts, 'ops': ops}
 
 
@@ -79,7 +80,7 @@ def execute(sc):
             seam = Seam(w.root)
             return mk_result([seam], [], False, outcome='skipped: FIFO Manifest', dontcare={'fifo-manifest': 1})
         model = Model(w.root, sc.get('top', 'Manifest'))
-        seam = Seam(w.root, order_key=sc['order_key'], virtual_root=True)
+        seam = Seam(w.root, order_key=sc['order_key'], virtual_root=True, read_chunks=sc.get('chunks'))
         snap0 = w.snapshot(with_mtime=False)
         judged = 0
         for i, op in enumerate(sc.get('ops', [])):
